@@ -408,14 +408,6 @@ func (n *lazyNode) equal(o *lazyNode) bool {
 				return false
 			}
 
-			if (v == nil) != (ov == nil) {
-				return false
-			}
-
-			if v == nil && ov == nil {
-				continue
-			}
-
 			if !v.equal(ov) {
 				return false
 			}
@@ -1118,7 +1110,7 @@ func (p Patch) test(doc *container, op Operation, options *ApplyOptions) error {
 
 	ov := op.value()
 
-	if val == nil {
+	if val.isNull() {
 		if ov.isNull() {
 			return nil
 		}
